@@ -317,6 +317,10 @@ static void m_put_char(struct model *m, struct m_chan *c, unsigned code, int is_
 	c->pen = a;                                   /* (h) [AT]: "Attributes are not affected by transparent spaces within a row" */
 	m_advance(m, c);
 	m_direct_touch(c, code == 0x20);
+	/* Q_LINE_BUFFER: caption.c recognises the end of a word by (unicode & 0x7F) == 0x20, which holds for
+	 * the space and for U+25A0, its code point for the solid block 0x7F: the row is copied to the
+	 * displayed page after a solid block as well.  Not a comparison point (no word is complete). */
+	if (code == 0x7F) m_lb_flush(c);
 }
 
 /* spacing attribute: Mid-Row Code, Flash On (15.119 (h)(i) [AT]); background / foreground
